@@ -18,7 +18,8 @@ from common import coq_failing, rng_for, CoqError, g_list, g_bool
 
 DTYPES = [('lv_universe', 'V1', ['a', 'b']), ('lv_universe', 'V2', ['x']), ('lv_universe', 'V', ['x']),
           ('lv_universe', 'VV', ['x']), ('lv_universe', 'VPost', ['x']), ('lv_universe', 'V0', []), ('lv_universe', 'VInh', ['a', 'b', 'c']),
-          ('lv_universe', 'VUnder', ['_hidden', 'x_']), ('lv_universe', 'VNoneRet', ['x'])]
+          ('lv_universe', 'VUnder', ['_hidden', 'x_']), ('lv_universe', 'VNoneRet', ['x']),
+          ('lv_universe', 'VInner', ['x'])]           # a task type defined inside a class: shown under its plain name
 
 
 def gen_task(rng, depth=0):
@@ -191,12 +192,15 @@ TEXT_IMPORTS = IMPORTS + 'Require Import LT.Model.DiagramText.\n'
 
 
 def _fmt(t):
-    """How labtech spells a type hint (its own format_type where the module still has one)."""
-    try:
-        from labtech.diagram import format_type
-        return format_type(t)
-    except ImportError:
-        return t.__name__ if isinstance(t, type) else str(t)
+    """How the diagram spells a type hint: the unqualified name of a type (of the origin and the arguments of a generic one), the
+    string form of anything else.  Computed here, not by labtech."""
+    import typing
+    if not isinstance(t, type):
+        return str(t)
+    origin = typing.get_origin(t)
+    if origin is None:
+        return t.__name__
+    return f"{origin.__name__}[{', '.join(_fmt(a) for a in typing.get_args(t))}]"
 
 
 def emit_text(tasks, direction, text):
@@ -232,8 +236,13 @@ def run(prop, report, tier, seed, replay=None):
     distinct = set()
     for specs in inputs:
         tasks = [V.build(s) for s in specs]
-        text = build_task_diagram(tasks)
         direction = rng.choice(['BT', 'BT', 'TB', 'LR', 'RL'])
+        try:
+            text = build_task_diagram(tasks)
+        except BaseException as e:   # noqa
+            report.violation('C20:diagram-raised', f'build_task_diagram raised {e!r} for a list of {len(tasks)} tasks', dict(tasks=specs))
+            text_terms.append(None)
+            continue
         try:
             text_terms.append(emit_text(tasks, direction, build_task_diagram(tasks, direction=direction)))
         except BaseException as e:   # noqa
